@@ -367,7 +367,10 @@ class IpPairing(ZeroconfPairing):
         """Provision a device with Thread network credentials."""
 
     async def subscribe(self, characteristics):
-        await super().subscribe(set(characteristics))
+        # The ids are walked more than once below: materialise them so a
+        # one-shot iterable (generator) is not sent as an empty request
+        characteristics = list(characteristics)
+        await super().subscribe(characteristics)
 
         if not self.supports_subscribe:
             logger.info(
@@ -388,6 +391,7 @@ class IpPairing(ZeroconfPairing):
             return {}
 
     async def unsubscribe(self, characteristics):
+        characteristics = list(characteristics)
         if not self.connection.is_connected:
             # If not connected no need to unsubscribe
             await super().unsubscribe(characteristics)
